@@ -95,7 +95,7 @@ theorem shape_function (D : Decls) (v : Val) (a b : STy) (h : HasShape D v (.fn 
 /-- The model's (verified) checker is sound for the declarative system: an annotated program it
     accepts is typed, so by `soundness_closed` it never goes wrong. The driver runs this checker
     on every generated program the real checker accepted (annotations found by the untrusted
-    elaborator `SurfTy.elab`). -/
+    elaborator `SurfTy.Elab.elabProgram`). -/
 theorem infer_sound (D : Decls) (Γ : Ctx) (a : AExpr) (τ : STy) (h : inferA D Γ a = some τ) :
     HasType D Γ a.erase τ :=
   Proofs.inferA_sound a h
@@ -106,57 +106,124 @@ theorem checked_programs_safe (D : Decls) (n : Nat) (a : AExpr) (τ : STy)
     (∀ w, eval n [] a.erase ≠ .error (.wrong w)) ∧ (∀ v, eval n [] a.erase = .ok v → HasShape D v τ) :=
   soundness_closed D n a.erase τ (infer_sound D [] a τ h)
 
+/-! ### The real checker accepts more than `HasType` (defect D17, found by this check's oracle)
+
+Full statement wanted: `AcceptsReal D [] e τ → eval n [] e = .ok v → HasShape D v τ` where
+`AcceptsReal` is what check/src/typecheck.rs really accepts. FALSE for the unchanged code:
+`[{ a = 1, b = "x" }, { b = "y", a = 2 }]` is accepted at `Array { a : Int, b : String }` and its
+second element is laid out `("y", 2)` (corpus/C02/d17_record_literal_order.glu). -/
+
+/-- D17: a record literal accepted at a permutation of its own field order yields a value that
+    does not have the shape of its type … -/
+theorem accepted_programs_safe_fails :
+    ∃ (D : Decls) (e : Expr) (τ : STy) (v : Val),
+      AcceptsReal D [] e τ ∧ eval 5 [] e = .ok v ∧ ¬ HasShape D v τ := by
+  refine ⟨fun _ _ => none, .record [.int 1, .str "x"] none [.field 0, .field 1],
+    .recd [.str, .int], .data 0 [.int 1, .str "x"], ?_, rfl, ?_⟩
+  · exact .literalAnyOrder (σs := [.int, .str]) (τs := [.int, .str])
+      (.cons .int (.cons .str .nil)) (.field rfl (.field rfl .nil)) (List.Perm.swap _ _ _)
+  · intro h
+    cases h with
+    | recd hvs => cases hvs with
+      | cons h1 _ => cases h1
+
+/-- … and using the value at its static type goes wrong (the model counterpart of the observed
+    `GetOffset on 1` / reading a String as an Int): projecting the "Int" field and adding to it. -/
+theorem accepted_programs_go_wrong_witness :
+    eval 6 [] (.prim "+" (.proj (.record [.str "y", .int 2] none [.field 0, .field 1]) 0) (.int 1))
+      = .error (.wrong "prim") := by rfl
+
+/-- Whatever the modelled real checker accepts other than through the defective rule (here: the
+    program is not a record literal checked against a permuted expected type) is safe. -/
+theorem accepted_programs_safe_partial (D : Decls) (n : Nat) (e : Expr) (τ : STy)
+    (h : AcceptsReal D [] e τ) (hno : ∀ fields layout, e ≠ .record fields none layout) :
+    (∀ w, eval n [] e ≠ .error (.wrong w)) ∧ (∀ v, eval n [] e = .ok v → HasShape D v τ) := by
+  cases h with
+  | sound h => exact soundness_closed D n e τ h
+  | literalAnyOrder _ _ _ => exact absurd rfl (hno _ _)
+
 /-! ### Module imports (query.rs `global_inner`, compiler_pipeline.rs `run_io`)
 
 Full statement wanted: for every setting `run_io` and every well-shaped module value,
-`ShapeM (globalInner run_io g).value (importerType g)` — the stored global has the shape of the
-type importers are checked against. It is FALSE for the unchanged code (defect D6). -/
+`globalInner run_io g = some g'` (no internal failure) and `ShapeM g'.value (importerType g)` — the
+stored global has the shape of the type importers are checked against. Both parts are FALSE for
+the unchanged code (defects D18 and D6). -/
 
 /-- D6: with `run_io` on, a module of type `IO Int` is stored as the *result* `1 : Int` while
     importers are typed against `IO Int`. -/
 theorem import_agreement_fails :
-    ∃ (D : Decls) (g : Global), ShapeM D g.value g.typ ∧ isIO g.typ = true ∧
-      ¬ ShapeM D (globalInner true g).value (importerType g) :=
-  ⟨fun _ _ => none, ⟨.io .int, .action (.int 1)⟩, HasShape.int, rfl, fun h => h⟩
+    ∃ (D : Decls) (g g' : Global), ShapeM D g.value g.typ ∧ isIO g.typ = true ∧
+      globalInner true g = some g' ∧ ¬ ShapeM D g'.value (importerType g) :=
+  ⟨fun _ _ => none, ⟨.io .int, .action (.int 1)⟩, ⟨.plain .int, .val (.int 1)⟩,
+    HasShape.int, rfl, rfl, fun h => h⟩
 
 /-- … and using that global at the importer's type is the VM's `Cannot call 1`: executing the
     "action" applies a non-function. -/
 theorem import_agreement_fails_is_cannot_call (n : Nat) (arg : Val) :
     apply (n + 1) (.int 1) [arg] = .error (.wrong "call") ∧
-    useImported true (globalInner true ⟨.io .int, .action (.int 1)⟩) (importerType ⟨.io .int, .action (.int 1)⟩) = .wrong :=
+    useImported true ⟨.plain .int, .val (.int 1)⟩ (importerType ⟨.io .int, .action (.int 1)⟩) = .wrong :=
   ⟨rfl, rfl⟩
 
-/-- Outside the defect's trigger (`run_io` on ∧ module of type `IO a`) the stored global has the
-    shape importers rely on. -/
-theorem import_agreement_partial (D : Decls) (runIoSetting : Bool) (g : Global)
-    (hg : ShapeM D g.value g.typ) (h : ¬ (runIoSetting = true ∧ isIO g.typ = true)) :
-    ShapeM D (globalInner runIoSetting g).value (importerType g) := by
-  unfold globalInner importerType
-  cases runIoSetting with
-  | false => simpa using hg
-  | true =>
-    obtain ⟨typ, value⟩ := g
-    cases typ with
-    | plain t => simpa [runIo] using hg
-    | io a => simp [isIO] at h
+/-- D18: with `run_io` on, a module whose type is an `IO` type under a quantifier
+    (`wrap (\x -> 1) : forall a. IO (a -> Int)`) hits the `ice!` in `run_io`: an internal compiler
+    error (host panic) on a program the checker accepted. -/
+theorem run_io_total_fails :
+    ∃ (D : Decls) (g : Global), ShapeM D g.value g.typ ∧ globalInner true g = none :=
+  ⟨fun _ _ => none, ⟨.ioForall (.fn .int .int), .action (.clos ["x"] (.int 1) [])⟩,
+    HasShape.clos (Γ := []) (τs := [.int]) (ρ := .int) .nil rfl .int rfl, rfl⟩
 
-/-- The repair: were importers typed against the *stored* type (what `run_io` already computes,
-    compiler_pipeline.rs:1160-1171) instead of `module_type`, agreement would hold under every
-    setting. -/
-theorem import_agreement_fixed (D : Decls) (runIoSetting : Bool) (g : Global)
-    (hg : ShapeM D g.value g.typ) :
-    ShapeM D (globalInner runIoSetting g).value (globalInner runIoSetting g).typ := by
+/-- Outside D18's trigger the module layer never fails internally. -/
+theorem run_io_total_partial (runIoSetting : Bool) (g : Global)
+    (h : ¬ (runIoSetting = true ∧ ∃ a, g.typ = .ioForall a)) :
+    ∃ g', globalInner runIoSetting g = some g' := by
   unfold globalInner
   cases runIoSetting with
-  | false => simpa using hg
+  | false => exact ⟨g, by simp⟩
   | true =>
     obtain ⟨typ, value⟩ := g
     cases typ with
-    | plain t => simpa [runIo] using hg
+    | plain t => simp [runIo]
+    | ioForall a => exact absurd ⟨rfl, a, rfl⟩ h
+    | io a =>
+      cases value with
+      | val v => simp [runIo]
+      | action r => simp [runIo]
+
+/-- Outside D6's trigger (`run_io` on ∧ module of an `IO` type) the stored global has the shape
+    importers rely on. -/
+theorem import_agreement_partial (D : Decls) (runIoSetting : Bool) (g g' : Global)
+    (hg : ShapeM D g.value g.typ) (h : ¬ (runIoSetting = true ∧ isIO g.typ = true))
+    (hs : globalInner runIoSetting g = some g') :
+    ShapeM D g'.value (importerType g) := by
+  unfold globalInner at hs
+  unfold importerType
+  cases runIoSetting with
+  | false => simp at hs; subst hs; exact hg
+  | true =>
+    obtain ⟨typ, value⟩ := g
+    cases typ with
+    | plain t => simp [runIo] at hs; subst hs; exact hg
+    | io a => simp [isIO] at h
+    | ioForall a => simp [isIO] at h
+
+/-- The repair of D6: were importers typed against the *stored* type (what `run_io` already
+    computes, compiler_pipeline.rs:1160-1171) instead of `module_type`, agreement would hold under
+    every setting. -/
+theorem import_agreement_fixed (D : Decls) (runIoSetting : Bool) (g g' : Global)
+    (hg : ShapeM D g.value g.typ) (hs : globalInner runIoSetting g = some g') :
+    ShapeM D g'.value g'.typ := by
+  unfold globalInner at hs
+  cases runIoSetting with
+  | false => simp at hs; subst hs; exact hg
+  | true =>
+    obtain ⟨typ, value⟩ := g
+    cases typ with
+    | plain t => simp [runIo] at hs; subst hs; exact hg
+    | ioForall a => simp [runIo] at hs
     | io a =>
       cases value with
       | val v => simp [ShapeM] at hg
-      | action r => simpa [runIo, ShapeM] using hg
+      | action r => simp [runIo] at hs; subst hs; exact hg
 
 /-! ### Non-vacuity -/
 
@@ -182,7 +249,8 @@ example : inferA surfDeclsA []
         (.cons (.ctor 1 [.var "h", .wild]) (.var "h") (.cons .wild (.int 7) .nil)) .int)) = some .int := by
   rfl
 
-example : ShapeM (fun _ _ => none) (globalInner false ⟨.io .int, .action (.int 1)⟩).value (.io .int) :=
-  HasShape.int
+example : globalInner false ⟨.io .int, .action (.int 1)⟩ = some ⟨.io .int, .action (.int 1)⟩ ∧
+    ShapeM (fun _ _ => none) (MVal.action (.int 1)) (.io .int) :=
+  ⟨rfl, HasShape.int⟩
 
 end GluonModel.Props.C02
